@@ -168,7 +168,10 @@ impl<'a> Gen<'a> {
         let amt = match self.r.below(10) { 0 => gen_offer(self.r, res), 1 => res / 1000 + 1, 2 => res / 100 + 1, 3 => res / 20 + 1, 4 => res / 100_000 + 1, _ => res / 5000 + 1 + self.r.below(1000) as u128 };
         let sender = pick_user(self.r);
         let belief = if self.r.chance(4, 5) { "-".to_string() } else { opt_dec_str(self.r, &[Some(1_000_000_000_000_000_000), Some(2_000_000_000_000_000_000), Some(500_000_000_000_000_000), Some(0), Some(1_000_000)]) };
-        let ms = if self.r.chance(2, 3) { "500000000000000000".to_string() } else { self.slip() };
+        let big = self.r.chance(1, 10);
+        let amt = if big { res.saturating_mul(1 + self.r.below(3) as u128) / [1u128, 2, 1][self.r.below(3) as usize] + 1 } else { amt };
+        let ms = if big { ["900000000000000000", "1000000000000000000", "600000000000000000", "500000000000000000"][self.r.below(4) as usize].to_string() }
+            else if self.r.chance(2, 3) { "500000000000000000".to_string() } else { self.slip() };
         let recv = self.receiver(sender);
         let funds = if amt == 0 { vec![] } else { vec![coin(amt, pi.assets[oi].denom.clone())] };
         // C12: the quote an instant before the swap
@@ -216,10 +219,14 @@ impl<'a> Gen<'a> {
         }
         if ops.is_empty() { return self.op_swap(); }
         if self.r.chance(1, 20) && ops.len() > 1 { ops[1].0 = "uom".into(); } // non-consecutive
-        let amt = offer_res / [100_000u128, 10_000, 1000, 200, 20][self.r.below(5) as usize] + 1;
+        let mut amt = offer_res / [100_000u128, 10_000, 1000, 200, 20][self.r.below(5) as usize] + 1;
+        // boundary probing of the 50 % cap: a large trade under an explicit tolerance above the cap
+        let big = self.r.chance(1, 8);
+        if big { amt = offer_res.saturating_mul(1 + self.r.below(3) as u128) / [1u128, 2, 1][self.r.below(3) as usize] + 1; }
         let sender = pick_user(self.r);
         let mr = match self.r.below(8) { 0 => "1".to_string(), 1 => u128::MAX.to_string(), _ => "-".into() };
-        let ms = if self.r.chance(2, 3) { "500000000000000000".to_string() } else { self.slip() };
+        let ms = if big { ["900000000000000000", "1000000000000000000", "600000000000000000"][self.r.below(3) as usize].to_string() }
+            else if self.r.chance(2, 3) { "500000000000000000".to_string() } else { self.slip() };
         let recv = self.receiver(sender);
         let mut s = format!("{}", ops.len());
         for (i, o_, p) in ops.iter() { s += &format!(" {} {} {}", i, o_, p); }
